@@ -1,6 +1,6 @@
 //! Small-scope document generators for the DIMACS family.
 
-use mc_core::generic::{byte_sweep, dedup_docs, single_edit_neighbours, token_sequences, Doc, MARKERS};
+use mc_core::generic::{byte_sweep, comment_byte_docs, dedup_docs, digit_byte_docs, single_edit_neighbours, token_sequences, Doc, MARKERS};
 use mc_core::Tier;
 
 pub fn corpus(kind: &str) -> Vec<Doc> {
@@ -98,6 +98,24 @@ pub fn inputs_seq(kind: &str, tier: Tier, seq_len: usize) -> Inputs {
         if (tier == Tier::Quick && quick_base) || (tier == Tier::Thorough && (8..=60).contains(&d.bytes.len())) {
             nb.extend(byte_sweep(d));
         }
+    }
+    // number tokens followed by every byte value
+    let (pre, signed): (&[u8], bool) = match kind {
+        "cnf" => (b"", true),
+        "wcnf" => (b"7 ", true),
+        "gcnf" => (b"{1} ", true),
+        _ => (b"v ", true),
+    };
+    nb.extend(digit_byte_docs(kind, pre, b" 0\n", signed));
+    if kind == "wcnf" {
+        nb.extend(digit_byte_docs("wcnf-weight", b"", b" 1 0\n", false));
+    }
+    // comment lines with every byte value in every lane
+    match kind {
+        "cnf" => nb.extend(comment_byte_docs(kind, b"p cnf 1 1\nc ", b"1 0\n")),
+        "wcnf" => nb.extend(comment_byte_docs(kind, b"c ", b"p wcnf 1 1 2\n1 1 0\n")),
+        "gcnf" => nb.extend(comment_byte_docs(kind, b"p gcnf 1 1 1\n{1} 1\nc ", b"0\n")),
+        _ => nb.extend(comment_byte_docs(kind, b"c ", b"s SATISFIABLE\n")),
     }
     let sequences = dedup_docs(token_sequences(&tokens(kind), seq_len));
     // all short strings over a 10-symbol alphabet (arbitrary inputs)
